@@ -17,10 +17,16 @@ def run(ctx):
                   HDR.format(imports="model.C03_model model.C03_run"), seed_offset=off,
                   shard=60 if ctx.tier == "quick" else 400, env={"VERIF_STAGE": "c03" + suffix}, replace=replace, timeout=1500)
 
-    return standard(ctx, "C03", ["model/C03_run.vo"], stages,
+    hdr = HDR.format(imports="model.C03_model model.C03_run")
+    # per operation (content clauses hold, locator clauses hold), and the all-404 clause
+    expr = "(judge_ops (c_in c) (i_ops (c_in c)) (ob_res (c_obs c)), notfound_ok (c_in c) (ob_res (c_obs c)))"
+    return standard(ctx, "C03", ["model/C03_run.vo"], stages, explain={"c03": (hdr, expr)},
                     rule="1-4 services x 1-3 rounds, per-attempt behaviours from {correct, flipped bit, short, long, wrong Content-Length, "
                          "chunked ok/long/short/cut/flipped, 404, 403, 408, 429, 500, 503, connection error}, contents of 0/1/11/~100/4096 bytes, "
-                         "with and without size hint; operations Get (ReadAll/ReadFull/WriteTo/Close), ReadAt, concurrent ReadAt, "
+                         "with and without size hint; 12% of the hinted non-file blocks carry a size hint that is NOT the size of the data "
+                         "with that hash (-2..+3), two thirds of those with scripts in which every 200 answer declares its length and an "
+                         "intact answer comes early (judged by the locator clauses of spec_b: digest and size of what is delivered as a "
+                         "success); operations Get (ReadAll/ReadFull/WriteTo/Close), ReadAt, concurrent ReadAt, "
                          "CollectionFileReader; 12% of the cases over real loopback HTTP; non-trivial = at least two requests reached the services",
                     assumptions=["net/http transport rule (declared length n => exactly the first n bytes, unexpected EOF if fewer; no length => all bytes, "
                                  "unexpected EOF if the connection is cut) is part of the model; the loopback cases exercise it against real net/http",
